@@ -4948,6 +4948,11 @@ func (c *BytecodeCompiler) compileMethodCall(receiver ast.ExpressionNode, op *to
 		// the deferred code runs after the call returns, the frame cannot be reused
 		tailCall = false
 	}
+	if c.isGenerator {
+		// the result of the call is yielded and the generator can be resumed afterwards
+		// (to signal the end of iteration), the frame cannot be reused
+		tailCall = false
+	}
 
 	switch op.Type {
 	case token.QUESTION_DOT:
